@@ -15,7 +15,7 @@ RULE = ("configurations = generator (dfs, prim, wilson, percolation p>=.5, dfs_p
         "configs with a fixed start_coord, a third of those NOT a cell of the grid: generation must raise ValueError and the model must be in "
         "its start-rejected branch; a produced dataset is a violation) x grid 2..7 x endpoint options "
         "({}, dead-end start/end, allowed start/end lists, endpoints_not_equal and combinations) x seeds; serial (tapped, exact) and "
-        "parallel with several pool sizes; every serial run additionally replayed WHOLE on one shared stream (C03.dataset: items equal in order, streams consumed exactly); non-trivial = item whose solution has >= 2 cells; distinct = distinct (config, index, solution); later additions: whole tapped serial runs replayed by the dataset-level model (C03.dataset), empty allowed lists, cache-count sequences, 129/130 grids, big dfs+percolation mazes with endpoints pinned to opposite corners (8 in quick, 60 in the search), an undocumented ValueError in parallel generation counts as a violation")
+        "parallel with several pool sizes; every serial run additionally replayed WHOLE on one shared stream (C03.dataset: items equal in order, streams consumed exactly); non-trivial = item whose solution has >= 2 cells; distinct = distinct (config, index, solution); later additions: whole tapped serial runs replayed by the dataset-level model (C03.dataset), empty allowed lists, cache-count sequences, 129/130 grids, big dfs+percolation mazes with endpoints pinned to opposite corners (8 in quick, 60 in the search), an undocumented ValueError in parallel generation counts as a violation, allow-list and dead-end flag on the same endpoint")
 ASSUMPTIONS = ["multiprocessing transport (pickling, imap ordering) is exercised, not modelled: the per-item theorem holds for every draw stream, the schedule only selects the stream",
                "configurations whose generation raises the documented ValueError (component of one cell, empty allowed set; a start_coord that is not a cell of the grid - accepted ONLY for such a start_coord, counted separately) are outside the property's quantifier and only counted",
                "visited_cells of percolation generators: component exactness is C13_component (validated here per run)"]
